@@ -67,10 +67,45 @@ fn parse_data(t: &[&str]) -> Option<(Vec<u8>, usize)> {
     }
 }
 
+/// a 32-byte key stored at a deliberately odd address: offset 1..=8 inside an 8-aligned buffer, chosen from the key bytes
+/// (so that `&[u8; 32]` arguments are seen at every alignment; a key is a value, its address must not matter)
+#[derive(Clone)]
+#[repr(align(8))]
+struct KeyBuf {
+    buf: [u8; 48],
+    off: usize,
+}
+
+impl KeyBuf {
+    fn new(k: [u8; 32]) -> KeyBuf {
+        let off = 1 + (k[1] as usize % 8);
+        let mut buf = [0u8; 48];
+        buf[off..off + 32].copy_from_slice(&k);
+        KeyBuf { buf, off }
+    }
+    fn key(&self) -> &[u8; 32] {
+        <&[u8; 32]>::try_from(&self.buf[self.off..self.off + 32]).unwrap()
+    }
+}
+
+/// a copy of `d` that starts `d.len() % 8` bytes (plus one if that is 0 and d is non-empty) into an 8-aligned buffer
+fn misaligned(d: &[u8]) -> (Vec<u64>, usize) {
+    let off = if d.is_empty() { 0 } else { 1 + d.len() % 7 };
+    let mut v = vec![0u64; (off + d.len() + 7) / 8 + 1];
+    let bytes = unsafe { std::slice::from_raw_parts_mut(v.as_mut_ptr() as *mut u8, v.len() * 8) };
+    bytes[off..off + d.len()].copy_from_slice(d);
+    (v, off)
+}
+
+fn view(v: &(Vec<u64>, usize), len: usize) -> &[u8] {
+    let bytes = unsafe { std::slice::from_raw_parts(v.0.as_ptr() as *const u8, v.0.len() * 8) };
+    &bytes[v.1..v.1 + len]
+}
+
 #[derive(Clone)]
 enum ModeArg {
     Hash,
-    Keyed([u8; 32]),
+    Keyed(KeyBuf),
     Derive(Vec<u8>),
 }
 
@@ -79,7 +114,7 @@ fn parse_mode(t: &[&str]) -> Option<(ModeArg, usize)> {
         &"hash" => Some((ModeArg::Hash, 1)),
         &"keyed" => {
             let k = unhex(t.get(1)?)?;
-            Some((ModeArg::Keyed(k.try_into().ok()?), 2))
+            Some((ModeArg::Keyed(KeyBuf::new(k.try_into().ok()?)), 2))
         }
         &"derive" => Some((ModeArg::Derive(unhex(t.get(1)?)?), 2)),
         _ => None,
@@ -89,7 +124,7 @@ fn parse_mode(t: &[&str]) -> Option<(ModeArg, usize)> {
 fn new_hasher(m: &ModeArg) -> Option<blake3::Hasher> {
     Some(match m {
         ModeArg::Hash => blake3::Hasher::new(),
-        ModeArg::Keyed(k) => blake3::Hasher::new_keyed(k),
+        ModeArg::Keyed(k) => blake3::Hasher::new_keyed(k.key()),
         ModeArg::Derive(c) => blake3::Hasher::new_derive_key(std::str::from_utf8(c).ok()?),
     })
 }
@@ -213,7 +248,7 @@ struct St {
 fn hz_mode<'a>(m: &'a ModeArg, ck: &'a mut [u8; 32]) -> Option<Mode<'a>> {
     Some(match m {
         ModeArg::Hash => Mode::Hash,
-        ModeArg::Keyed(k) => Mode::KeyedHash(k),
+        ModeArg::Keyed(k) => Mode::KeyedHash(k.key()),
         ModeArg::Derive(c) => {
             *ck = hazmat::hash_derive_key_context(std::str::from_utf8(c).ok()?);
             Mode::DeriveKeyMaterial(ck)
@@ -251,7 +286,8 @@ fn step(st: &mut St, t: &[&str]) -> Option<String> {
             if n != rest.len() {
                 return None;
             }
-            st.hs.get_mut(*r)?.update(&d);
+            let mv = misaligned(&d);
+            st.hs.get_mut(*r)?.update(view(&mv, d.len()));
             ok
         }
         ["H", "updwv", r, lens, rest @ ..] => {
@@ -422,11 +458,14 @@ fn step(st: &mut St, t: &[&str]) -> Option<String> {
         }
         ["O", "hash", rest @ ..] => {
             let (m, n) = parse_mode(rest)?;
-            let (d, _) = parse_data(&rest[n..])?;
+            let (d0, _) = parse_data(&rest[n..])?;
+            // the input at an odd address (the one-shot functions take any slice)
+            let mv = misaligned(&d0);
+            let d = view(&mv, d0.len());
             Some(match m {
-                ModeArg::Hash => hex(blake3::hash(&d).as_bytes()),
-                ModeArg::Keyed(k) => hex(blake3::keyed_hash(&k, &d).as_bytes()),
-                ModeArg::Derive(c) => hex(&blake3::derive_key(std::str::from_utf8(&c).ok()?, &d)),
+                ModeArg::Hash => hex(blake3::hash(d).as_bytes()),
+                ModeArg::Keyed(k) => hex(blake3::keyed_hash(k.key(), d).as_bytes()),
+                ModeArg::Derive(c) => hex(&blake3::derive_key(std::str::from_utf8(&c).ok()?, d)),
             })
         }
         ["Z", "merge", kind, rest @ ..] => {
@@ -479,7 +518,7 @@ fn step(st: &mut St, t: &[&str]) -> Option<String> {
             let (m, _) = parse_mode(rest)?;
             let h = match m {
                 ModeArg::Hash => reference_impl::Hasher::new(),
-                ModeArg::Keyed(k) => reference_impl::Hasher::new_keyed(&k),
+                ModeArg::Keyed(k) => reference_impl::Hasher::new_keyed(k.key()),
                 ModeArg::Derive(c) => reference_impl::Hasher::new_derive_key(std::str::from_utf8(&c).ok()?),
             };
             st.rs.insert(r.to_string(), h);
@@ -507,6 +546,8 @@ fn step(st: &mut St, t: &[&str]) -> Option<String> {
         }
         ["G", "len", g] => Some(st.gs.get(*g)?.len().to_string()),
         ["G", "fin", g, root] => Some(hex(st.gs.get(*g)?.finalize(*root == "root").as_bytes())),
+        // the same call; the model answers it with the behaviour of a build WITHOUT debug assertions (used by the `relnd` profile stage)
+        ["G", "finrel", g, root] => Some(hex(st.gs.get(*g)?.finalize(*root == "root").as_bytes())),
         ["G", "parent", l, r, root] => {
             let l: [u8; 32] = unhex(l)?.try_into().ok()?;
             let r: [u8; 32] = unhex(r)?.try_into().ok()?;
@@ -749,6 +790,22 @@ fn zero_snap(kind: &str, mode: &str, len: usize, extra: usize, seed: u64) -> Opt
             d.zeroize();
             Some((before, raw(&d)))
         }
+        "hashu" => {
+            // the same Hash value placed at every address modulo 8 (a Hash has alignment 1: a field after a u8, a packed record)
+            #[repr(C, align(8))]
+            struct Slot([u8; 48]);
+            let d = h.finalize();
+            let (mut before, mut after) = (Vec::new(), Vec::new());
+            for k in 0..8usize {
+                let mut slot = Slot([0u8; 48]);
+                let p = unsafe { slot.0.as_mut_ptr().add(k) } as *mut blake3::Hash;
+                unsafe { std::ptr::write(p, d) };
+                before.extend_from_slice(&slot.0[k..k + 32]);
+                unsafe { (*p).zeroize() };
+                after.extend_from_slice(&slot.0[k..k + 32]);
+            }
+            Some((before, after))
+        }
         _ => None,
     }
 }
@@ -785,6 +842,21 @@ fn conv_step(t: &[&str]) -> Option<String> {
                 "argp" => format!("{:.*}", 5, hash),
                 "tostring" => hash.to_string(),
                 _ => return None,
+            })
+        }
+        ["fromhexbig", n, s] => {
+            // from_hex on an input of <n> bytes (zero pages from the allocator, never touched) whose first bytes are <s>:
+            // lengths that only differ from 64 above bit 31
+            let n: usize = n.parse().ok()?;
+            let head = unhex(s)?;
+            if head.len() > n || n > (1usize << 34) {
+                return None;
+            }
+            let mut v = vec![0u8; n];
+            v[..head.len()].copy_from_slice(&head);
+            Some(match blake3::Hash::from_hex(&v) {
+                Ok(h) => hex(h.as_bytes()),
+                Err(e) => format!("err:{:?}", e),
             })
         }
         ["fromhex", s] => {
